@@ -719,6 +719,8 @@ def run_c19(pid, tier, seed):
     cfgs = [factory.gen_config(rng, with_fleet=True) for _ in range(n)]
     # lines with splitters / combiners and lines with conveyor edges are part of the reproducibility runs too
     cfgs += [factory.gen_config_sc(rng) for _ in range(n // 3)] + [factory.gen_config_conv(rng) for _ in range(n // 3)]
+    # ... and factories re-wired with the documented reconnect=True (an edge of a node with three edges on one side moved away)
+    cfgs += [factory.gen_config_moved(rng) for _ in range(n // 3)]
     n = len(cfgs)
     from harness import repro
     a, b = repro.digests(cfgs), repro.digests(cfgs, churn=1000)
